@@ -17,11 +17,27 @@
 //!     304 bytes for 264 and 328 for 256), patches the wrong place and the name is lost),
 //!   * the inner per-sequence arrays of WotLK+ tracks (the writer copies the outer array verbatim),
 //!   * the small u16 / string / vec2 arrays referenced from ribbon and particle emitters.
-//! Event `ranges` are left empty: the writer emits their bytes without accounting for them.
+//! The first event carries one `ranges` entry and two time stamps (both relocated by the writer).
+//!
+//! Variants inside every legacy seed: vertices with all-zero bone weights (with valid and with
+//! out-of-range bone indices: the two arms of the Permissive repair in chunks/vertex.rs), one
+//! animated block each with interpolation None / Bezier / Hermite (all others are Linear).
+//! "md20-bfa-280" adds what only BfA+ records have (multi-texture parameters of the particle
+//! emitter) plus the PHYSICS flag on the first of two particle emitters (five extra floats at the
+//! end of the record, i.e. a variable record size inside the array).
+//! "md20-legion-276-hdropt" carries the three optional header arrays (blend_map_overrides for flag
+//! 0x08000000, texture_combiner_combos for USE_TEXTURE_COMBINERS, texture_transforms for Legion+).
+//! `M2Model::write` clears these three fields before it writes the header (model.rs, "Clear
+//! post-BC optional fields we don't serialize") but keeps the flags word, so the pairs cannot come
+//! from the writer: the model is written without a name and with six leading placeholder entries
+//! in `global_sequences`, which the writer places directly behind the fixed header; afterwards the
+//! header's global_sequences pair is moved behind those 24 bytes, the 24 bytes become the three
+//! (count, offset) pairs pointing at appended data, and the name is appended like the texture name.
 //!
 //! Chunked (MD21) seed: no writer exists in the crate; the file is "MD21" <size> <library-written
 //! MD20 payload> followed by the chunks `parse_chunked` knows (payloads laid out after the chunk
-//! parsers of chunks/rendering_enhancements.rs and model.rs) and one unknown chunk. Note that
+//! parsers of chunks/rendering_enhancements.rs and model.rs; the WFV2 / WFV3 payloads come from the
+//! library's `WaterfallEffect::write`) and one unknown chunk. Note that
 //! `parse_chunked` skips the MD21 payload altogether (parse_md21_simple), so only a handful of
 //! header fields of the embedded MD20 are registered there.
 use crate::seed::{add_chunk_seq, Aux, Seed};
@@ -36,6 +52,7 @@ use wow_m2::chunks::ribbon_emitter::M2RibbonEmitter;
 use wow_m2::chunks::texture::{M2Texture, M2TextureFlags, M2TextureType};
 use wow_m2::chunks::texture_animation::{M2TextureAnimation, M2TextureAnimationType};
 use wow_m2::chunks::transparency_animation::M2TransparencyAnimation;
+use wow_m2::chunks::rendering_enhancements::{WaterfallEffect, WaterfallParameters};
 use wow_m2::chunks::{M2Attachment, M2Camera, M2Event, M2Light, M2LightType, M2ParticleEmitter, M2ParticleFlags, M2Vertex};
 use wow_m2::common::{C2Vector, C3Vector, M2Array, M2ArrayString, M2Parse, M2Vec};
 use wow_m2::header::{M2Header, M2ModelFlags};
@@ -55,6 +72,8 @@ pub fn seed_names(thorough: bool) -> Vec<String> {
         v.push("cata-272".into());
         v.push("md20-legion-276".into());
         v.push("wotlk-264-min".into());
+        v.push("md20-bfa-280".into());
+        v.push("md20-legion-276-hdropt".into());
     }
     v
 }
@@ -87,6 +106,11 @@ fn stamps(n: u32) -> Vec<u8> {
 
 /// An animated `M2AnimationBlock` with n keys plus the raw bytes the writer has to emit for it.
 fn block<T: M2Parse>(fake: &mut Fake, n: u32, vsz: usize) -> (M2AnimationBlock<T>, Keys) {
+    block_i(fake, n, vsz, M2InterpolationType::Linear)
+}
+
+/// Same with an explicit interpolation type (the selector of M2InterpolationType::from_u16).
+fn block_i<T: M2Parse>(fake: &mut Fake, n: u32, vsz: usize, interp: M2InterpolationType) -> (M2AnimationBlock<T>, Keys) {
     let k = Keys {
         ranges: [0u32.to_le_bytes(), (n - 1).to_le_bytes()].concat(),
         ts: stamps(n),
@@ -96,7 +120,7 @@ fn block<T: M2Parse>(fake: &mut Fake, n: u32, vsz: usize) -> (M2AnimationBlock<T
         vo: fake.next(),
     };
     let t = M2AnimationTrack {
-        interpolation_type: M2InterpolationType::Linear,
+        interpolation_type: interp,
         global_sequence: -1,
         interpolation_ranges: M2Array::new(1, k.ro),
         timestamps: M2Array::new(n, k.to),
@@ -151,25 +175,55 @@ fn vec3(k: usize) -> C3Vector {
     C3Vector { x: k as f32, y: 0.5 * k as f32, z: 1.0 }
 }
 
-fn build_model(vnum: u32, minimal: bool) -> M2Model {
+/// What a legacy seed contains besides the version-dependent layout.
+#[derive(Clone, Copy, PartialEq, Eq, Debug)]
+enum Variant {
+    /// every section the writer serialises
+    Full,
+    /// header, name and vertices only
+    Minimal,
+    /// `Full` plus the optional header arrays (see the module comment)
+    HdrOpt,
+}
+
+/// Flag 0x08000000 of the header ("USE_BLEND_MAP_OVERRIDES" in header.rs, no named constant).
+const FLAG_BLEND_MAP_OVERRIDES: u32 = 0x0800_0000;
+/// Number of u32 placeholders at the start of `global_sequences` of a `HdrOpt` model: three pairs.
+const HDROPT_PLACEHOLDERS: usize = 6;
+
+fn build_model(vnum: u32, variant: Variant) -> M2Model {
+    let minimal = variant == Variant::Minimal;
     let ver = M2Version::from_header_version(vnum).expect("m2: version");
     let mut fake = Fake(0x0100_0000);
     let mut m = M2Model::default();
     m.header = M2Header::new(ver);
     m.header.version = vnum;
     m.header.flags = M2ModelFlags::TILT_X | M2ModelFlags::HAS_BONES;
+    if variant == Variant::HdrOpt {
+        assert!(ver >= M2Version::Legion, "m2: the hdropt variant expects all three optional header arrays");
+        m.header.flags |= M2ModelFlags::USE_TEXTURE_COMBINERS | M2ModelFlags::from_bits_retain(FLAG_BLEND_MAP_OVERRIDES);
+    }
     if vnum > 263 {
         m.header.num_skin_profiles = Some(2);
     }
     m.header.bounding_box_min = [-1.0, -1.0, 0.0];
     m.header.bounding_box_max = [1.0, 1.0, 2.0];
     m.header.bounding_sphere_radius = 2.5;
-    m.name = Some("C05Seed".to_string());
-    for i in 0..4usize {
+    // hdropt: no name, so that the writer places global_sequences directly behind the fixed header
+    m.name = if variant == Variant::HdrOpt { None } else { Some("C05Seed".to_string()) };
+    for i in 0..6usize {
+        // vertices 4 and 5 have all-zero bone weights: 4 with valid bone indices (weights are kept
+        // when the model has bones), 5 with an out-of-range bone index (repaired to weight 255 on
+        // bone 0); in the minimal model (no bones) every index is out of range
+        let (w, bi) = match i {
+            4 => ([0u8; 4], [1u8, 0, 0, 0]),
+            5 => ([0u8; 4], [200u8, 0, 0, 0]),
+            _ => ([255u8, 0, 0, 0], [(i % 3) as u8, 0, 0, 0]),
+        };
         m.vertices.push(M2Vertex {
             position: vec3(i),
-            bone_weights: [255, 0, 0, 0],
-            bone_indices: [(i % 3) as u8, 0, 0, 0],
+            bone_weights: w,
+            bone_indices: bi,
             normal: C3Vector { x: 0.0, y: 1.0, z: 0.0 },
             tex_coords: C2Vector { x: 0.25 * i as f32, y: 0.5 },
             tex_coords2: Some(C2Vector { x: 0.0, y: 0.0 }),
@@ -180,6 +234,9 @@ fn build_model(vnum: u32, minimal: bool) -> M2Model {
     }
 
     m.global_sequences = vec![100, 2000];
+    if variant == Variant::HdrOpt {
+        m.global_sequences.splice(0..0, [0u32; HDROPT_PLACEHOLDERS]);
+    }
     for i in 0..2u16 {
         m.animations.push(M2Animation {
             animation_id: i * 4,
@@ -266,6 +323,13 @@ fn build_model(vnum: u32, minimal: bool) -> M2Model {
     pe.bone_index = 1;
     pe.texture_index = 1;
     pe.lifetime = 1.5;
+    if vnum >= 280 {
+        // BfA+: multi-texture parameters; PHYSICS (MoP+) appends five floats to this record only
+        pe.flags |= M2ParticleFlags::PHYSICS;
+        pe.physics_parameters = Some([0.125, 0.25, 0.5, 1.0, 2.0]);
+        pe.multi_texture_param0 = Some([1, 2, 3, 4]);
+        pe.multi_texture_param1 = Some([5, 6, 7, 8]);
+    }
     let (b1, k1) = block::<f32>(&mut fake, 2, 4);
     let (b2, k2) = block::<M2Color>(&mut fake, 2, 12);
     pe.emission_speed_animation = b1;
@@ -283,6 +347,15 @@ fn build_model(vnum: u32, minimal: bool) -> M2Model {
         });
     }
     m.particle_emitters.push(pe);
+    if vnum >= 280 {
+        // a second, static emitter without PHYSICS: its position depends on the size of the first
+        let mut pe2 = M2ParticleEmitter::parse(&mut Cursor::new(vec![0u8; 1024]), vnum).expect("m2: zero particle emitter");
+        pe2.id = 2;
+        pe2.flags = M2ParticleFlags::BILLBOARDED;
+        pe2.bone_index = 2;
+        pe2.lifetime = 0.75;
+        m.particle_emitters.push(pe2);
+    }
 
     let mut re = M2RibbonEmitter::parse(&mut Cursor::new(vec![0u8; 512]), vnum).expect("m2: zero ribbon emitter");
     re.bone_index = 2;
@@ -310,7 +383,7 @@ fn build_model(vnum: u32, minimal: bool) -> M2Model {
 
     let mut ta = M2TextureAnimation::new(M2TextureAnimationType::Scroll);
     let (b1, k1) = block::<f32>(&mut fake, 2, 4);
-    let (b2, k2) = block::<f32>(&mut fake, 2, 4);
+    let (b2, k2) = block_i::<f32>(&mut fake, 2, 4, M2InterpolationType::None);
     ta.translation_u = b1;
     ta.scale_v = b2;
     for (k, tt) in [(k1, TextureTrackType::TranslationU), (k2, TextureTrackType::ScaleV)] {
@@ -356,13 +429,20 @@ fn build_model(vnum: u32, minimal: bool) -> M2Model {
         original_values_offset: k.vo,
     });
 
-    // events: first with two time stamps, second static
+    // events: first with one range and two time stamps, second static
     let mut e0 = M2Event::new(*b"$CAH", 1);
-    let eo = fake.next();
+    let (ero, eo) = (fake.next(), fake.next());
+    e0.ranges = M2Array::new(1, ero);
     e0.times = M2Array::new(2, eo);
     m.events.push(e0);
     m.events.push(M2Event::new(*b"$FSD", 0));
-    m.raw_data.event_data.push(EventRaw { event_index: 0, ranges: Vec::new(), original_ranges_offset: 0, timestamps: stamps(2), original_timestamps_offset: eo });
+    m.raw_data.event_data.push(EventRaw {
+        event_index: 0,
+        ranges: [0u32.to_le_bytes(), 1u32.to_le_bytes()].concat(),
+        original_ranges_offset: ero,
+        timestamps: stamps(2),
+        original_timestamps_offset: eo,
+    });
 
     let mut a0 = M2Attachment::new(11, 1);
     let (b1, k) = block::<f32>(&mut fake, 2, 4);
@@ -382,7 +462,7 @@ fn build_model(vnum: u32, minimal: bool) -> M2Model {
 
     let mut cam = M2Camera::new(0);
     let (b1, k1) = block::<C3Vector>(&mut fake, 2, 12);
-    let (b2, k2) = block::<f32>(&mut fake, 2, 4);
+    let (b2, k2) = block_i::<f32>(&mut fake, 2, 4, M2InterpolationType::Hermite);
     cam.position_animation = b1;
     cam.roll_animation = b2;
     m.cameras.push(cam);
@@ -401,7 +481,7 @@ fn build_model(vnum: u32, minimal: bool) -> M2Model {
 
     let mut li = M2Light::new(M2LightType::Point, 1, 3);
     let (b1, k1) = block::<M2Color>(&mut fake, 2, 12);
-    let (b2, k2) = block::<f32>(&mut fake, 2, 4);
+    let (b2, k2) = block_i::<f32>(&mut fake, 2, 4, M2InterpolationType::Bezier);
     li.ambient_color_animation = b1;
     li.visibility_animation = b2;
     m.lights.push(li);
@@ -537,7 +617,8 @@ fn layout(h: &M2Header, sizes: &Sizes) -> Layout {
     }
     if let Some(x) = h.texture_transforms {
         // present for Legion+ headers; the writer does not emit it, the parser then reads the
-        // first 8 bytes of the data section as this pair (never dereferenced)
+        // first 8 bytes of the data section as this pair (never dereferenced). Only the hdropt
+        // seed has a well-formed pair here (see patch_hdropt)
         a!("texture_transforms", x, 1);
     }
     Layout { arrays, skin_profiles_pos: skin, end: p }
@@ -616,6 +697,34 @@ fn patch(bytes: &mut Vec<u8>, vnum: u32) {
     }
 }
 
+const MODEL_NAME: &[u8] = b"C05SeedOpt\0";
+
+/// The `HdrOpt` step described in the module comment: turn the six placeholder words behind the
+/// fixed header into the blend_map_overrides / texture_combiner_combos / texture_transforms pairs.
+/// Hand patch because `M2Model::write` sets the three header fields to None before writing.
+fn patch_hdropt(bytes: &mut Vec<u8>) {
+    let m = parse_legacy(bytes);
+    let gs = m.header.global_sequences;
+    let hs = gs.offset as usize;
+    assert_eq!(gs.count as usize, HDROPT_PLACEHOLDERS + 2, "m2: hdropt global sequences");
+    assert_eq!(m.header.name.count, 0);
+    // the parser has read the placeholders as the three optional pairs: that is where they are
+    assert_eq!(
+        (m.header.blend_map_overrides, m.header.texture_combiner_combos, m.header.texture_transforms),
+        (Some(M2Array::new(0, 0)), Some(M2Array::new(0, 0)), Some(M2Array::new(0, 0))),
+        "m2: hdropt placeholders"
+    );
+    assert!(bytes[hs..hs + 4 * HDROPT_PLACEHOLDERS].iter().all(|b| *b == 0));
+    // global_sequences: (8, hs) -> (2, hs + 24)
+    assert_eq!((rd32(bytes, 20), rd32(bytes, 24)), (gs.count, gs.offset));
+    put32(bytes, 20, 2);
+    put32(bytes, 24, (hs + 4 * HDROPT_PLACEHOLDERS) as u32);
+    append_array(bytes, hs, 4, &[1, 0, 2, 0]); // blend_map_overrides (bytes)
+    append_array(bytes, hs + 8, 3, &[0, 0, 1, 0, 2, 0]); // texture_combiner_combos (u16)
+    append_array(bytes, hs + 16, 8, &[0x3C; 8]); // texture_transforms (bytes)
+    append_array(bytes, 8, MODEL_NAME.len() as u32, MODEL_NAME);
+}
+
 /// Offset of `texture_tile_coordinates` inside a particle emitter record (particle_emitter.rs).
 fn particle_tile_pair(vnum: u32) -> usize {
     let ver = M2Version::from_header_version(vnum).expect("m2: version");
@@ -686,6 +795,11 @@ impl Inv<'_> {
                 // an empty block goes through the same parser code as the fully inventoried first
                 // block of the element; keep the inventory (and the quick tier) small
                 return;
+            }
+            if t.interpolation_type != M2InterpolationType::Linear {
+                // the seed's None / Bezier / Hermite variants: register the selector
+                assert_eq!(self.u32(rel) & 0xFFFF, t.interpolation_type as u32);
+                self.f(rel, 2, "index", format!("{name}.interpolation"));
             }
             let p = self.base0 + rel;
             let nm = format!("{}{}", self.prefix, name);
@@ -816,6 +930,15 @@ fn inventory_legacy(s: &mut Seed, base0: usize, prefix: &str, m: &M2Model, neste
     if a.count > 0 {
         inv.f(a.offset as usize + 16, 1, "index", "vertex[0].bone_index[0]".into());
         inv.f(a.offset as usize + 12, 1, "index", "vertex[0].bone_weight[0]".into());
+        // the zero-weight vertices (file values; the parser repairs vertex 5 in memory)
+        for vi in [4usize, 5] {
+            if (a.count as usize) > vi {
+                let o = a.offset as usize + 48 * vi;
+                assert_eq!(inv.u32(o + 12), 0, "m2: vertex {vi} has zero weights in the file");
+                inv.f(o + 12, 1, "index", format!("vertex[{vi}].bone_weight[0]"));
+                inv.f(o + 16, 1, "index", format!("vertex[{vi}].bone_index[0]"));
+            }
+        }
     }
     // textures
     let a = h("textures");
@@ -935,6 +1058,25 @@ fn inventory_legacy(s: &mut Seed, base0: usize, prefix: &str, m: &M2Model, neste
         inv.block(blocks + 196, "particle[0].size", 4, &x.size_animation, false);
         inv.block(blocks + 224, "particle[0].intensity", 4, &x.intensity_animation, false);
         inv.block(blocks + 252, "particle[0].z_source", 4, &x.z_source_animation, false);
+        if let (Some(p0), Some(p1)) = (x.multi_texture_param0, x.multi_texture_param1) {
+            // BfA+: 2 x 4 selector bytes in front of the tile coordinates pair
+            let mt = o + particle_tile_pair(vnum) - 8;
+            assert_eq!((inv.u32(mt), inv.u32(mt + 4)), (u32::from_le_bytes(p0), u32::from_le_bytes(p1)));
+            inv.f(mt, 1, "index", "particle[0].multi_texture_param0[0]".into());
+            inv.f(mt + 4, 1, "index", "particle[0].multi_texture_param1[0]".into());
+        }
+        // further emitters: records have a variable size (PHYSICS adds 20 bytes), so the position
+        // of emitter i is the sum of the sizes the library writes for its predecessors
+        let mut eo = o;
+        for (pi, e) in m.particle_emitters.iter().enumerate() {
+            if pi > 0 {
+                assert_eq!((inv.u32(eo), inv.u32(eo + 4)), (e.id, e.flags.bits()), "m2: particle emitter {pi} position");
+                inv.f(eo + 4, 4, "index", format!("particle[{pi}].flags"));
+                inv.f(eo + 20, 2, "index", format!("particle[{pi}].bone"));
+                inv.arr(eo + particle_tile_pair(vnum), &format!("particle[{pi}].tile_coordinates"), 8, Some((e.texture_tile_coordinates.count, e.texture_tile_coordinates.offset)));
+            }
+            eo += esize(|v| e.write(v, vnum).unwrap());
+        }
     }
     // texture / colour / transparency animations
     let a = h("texture_animations");
@@ -963,20 +1105,76 @@ fn inventory_legacy(s: &mut Seed, base0: usize, prefix: &str, m: &M2Model, neste
 // seeds
 // --------------------------------------------------------------------------------------------
 
-fn legacy_bytes(vnum: u32, minimal: bool) -> Vec<u8> {
-    let model = build_model(vnum, minimal);
+fn legacy_bytes(vnum: u32, variant: Variant) -> Vec<u8> {
+    let model = build_model(vnum, variant);
     let mut out = Cursor::new(Vec::new());
     model.write(&mut out).expect("m2: M2Model::write");
     let mut bytes = out.into_inner();
-    if !minimal {
+    if variant != Variant::Minimal {
         patch(&mut bytes, vnum);
+    }
+    if variant == Variant::HdrOpt {
+        patch_hdropt(&mut bytes);
     }
     bytes
 }
 
-fn build_legacy(name: &str, vnum: u32, minimal: bool) -> Seed {
-    let bytes = legacy_bytes(vnum, minimal);
+/// The variants a seed exists for really went through the parser branches they are meant for:
+/// checked on the model the library parsed back from the final seed bytes.
+/// These are statements about what the PARSER makes of the seed (not about the writer's output), so they must not
+/// fail a check run: a /repo change that alters, say, the bone-weight repair without crashing is not a C05 violation.
+/// `build_legacy` therefore evaluates them only in the builders' `seeds` listing (C05_VERBOSE) and reports a WARNING.
+fn self_check(m: &M2Model, variant: Variant) {
+    let vnum = m.header.version;
+    let ver = M2Version::from_header_version(vnum).expect("m2: version");
+    // vertex.rs validate_bone_data, total_weight == 0: kept with valid indices, repaired otherwise
+    assert_eq!(m.vertices.len(), 6);
+    let kept = if m.bones.is_empty() { [255, 0, 0, 0] } else { [0, 0, 0, 0] };
+    assert_eq!((m.vertices[4].bone_weights, m.vertices[5].bone_weights, m.vertices[5].bone_indices), (kept, [255, 0, 0, 0], [0, 0, 0, 0]), "m2: zero-weight vertices");
+    if variant == Variant::Minimal {
+        return;
+    }
+    // animation.rs from_u16: one block each with None / Bezier / Hermite
+    assert_eq!(
+        (
+            m.texture_animations[0].scale_v.track.interpolation_type,
+            m.lights[0].visibility_animation.track.interpolation_type,
+            m.cameras[0].roll_animation.track.interpolation_type,
+            m.texture_animations[0].translation_u.track.interpolation_type,
+        ),
+        (M2InterpolationType::None, M2InterpolationType::Bezier, M2InterpolationType::Hermite, M2InterpolationType::Linear),
+        "m2: interpolation types"
+    );
+    // model.rs collect_event_data: ranges.count > 0
+    assert_eq!((m.events[0].ranges.count, m.events[0].times.count), (1, 2));
+    let er = &m.raw_data.event_data[0];
+    assert_eq!((er.ranges.as_slice(), er.timestamps.len()), (&[0u8, 0, 0, 0, 1, 0, 0, 0][..], 8), "m2: event ranges");
+    let pe = &m.particle_emitters[0];
+    assert_eq!(pe.multi_texture_param0, if ver >= M2Version::BfA { Some([1, 2, 3, 4]) } else { None });
+    if vnum >= 280 {
+        assert_eq!(pe.physics_parameters, Some([0.125, 0.25, 0.5, 1.0, 2.0]), "m2: PHYSICS parameters");
+        assert_eq!((m.particle_emitters.len(), m.particle_emitters[1].id, m.particle_emitters[1].bone_index, m.particle_emitters[1].physics_parameters), (2, 2, 2, None));
+    } else {
+        assert_eq!(pe.physics_parameters, None);
+    }
+    let h = &m.header;
+    if variant == Variant::HdrOpt {
+        assert_eq!((h.blend_map_overrides.map(|a| a.count), h.texture_combiner_combos.map(|a| a.count), h.texture_transforms.map(|a| a.count)), (Some(4), Some(3), Some(8)));
+        assert_eq!((m.global_sequences.as_slice(), m.name.as_deref()), (&[100u32, 2000][..], Some("C05SeedOpt")));
+    } else {
+        assert_eq!((h.blend_map_overrides, h.texture_combiner_combos), (None, None));
+    }
+}
+
+fn build_legacy(name: &str, vnum: u32, variant: Variant) -> Seed {
+    let bytes = legacy_bytes(vnum, variant);
     let m = parse_legacy(&bytes);
+    if std::env::var("C05_VERBOSE").is_ok() {
+        if let Err(e) = std::panic::catch_unwind(std::panic::AssertUnwindSafe(|| self_check(&m, variant))) {
+            let msg = e.downcast_ref::<String>().cloned().or_else(|| e.downcast_ref::<&str>().map(|x| x.to_string())).unwrap_or_default();
+            println!("      WARNING m2/{name}: a seed variant is not reached by the baseline: {}", msg.replace('\n', " "));
+        }
+    }
     let mut s = Seed::new("m2", name, bytes);
     inventory_legacy(&mut s, 0, "", &m, true);
     s
@@ -999,7 +1197,7 @@ fn f32s(v: &[f32]) -> Vec<u8> {
 }
 
 fn build_chunked(name: &str) -> Seed {
-    let md20 = legacy_bytes(276, false);
+    let md20 = legacy_bytes(276, Variant::Full);
     let model = parse_legacy(&md20);
     let mut b = Vec::new();
     // (payload start, field list: (offset in payload, width, role, name, base in payload or usize::MAX, unit))
@@ -1073,6 +1271,18 @@ fn build_chunked(name: &str) -> Seed {
     inner.push((p, 4, 2, "index", "PADC.weight[0].texture_index".into(), usize::MAX, 1));
     inner.push((p, mode_at, 4, "count", "PADC.mode_count".into(), mode_at + 4, 6));
     chunk(&mut b, b"WFV1", &f32s(&[1.0, 0.5, 0.25]));
+    // WFV2 (5 floats) and WFV3 (8 floats): payloads from the library's writer; parse_chunked accepts
+    // all three variants in one file (each replaces `waterfall_effect`)
+    for (tag, version, n) in [(b"WFV2", 2u8, 2usize), (b"WFV3", 3, 5)] {
+        let wf = WaterfallEffect {
+            version,
+            parameters: WaterfallParameters { flow_velocity: 1.0, turbulence: 0.5, foam_intensity: 0.25, additional_params: (0..n).map(|k| 0.5 + k as f32).collect() },
+        };
+        let mut pl = Vec::new();
+        wf.write(&mut pl).expect("m2: WaterfallEffect::write");
+        assert_eq!(pl.len(), 12 + 4 * n);
+        chunk(&mut b, tag, &pl);
+    }
     let mut ed = le32s(&[2]);
     ed.extend_from_slice(&f32s(&[10.0, 20.0]));
     ed.extend_from_slice(&le32s(&[2]));
@@ -1153,7 +1363,7 @@ fn build_chunked(name: &str) -> Seed {
     let mut s = Seed::new("m2", name, b);
     let end = s.bytes.len();
     let chunks = add_chunk_seq(&mut s, "top", 0, end, Vec::new(), false);
-    assert_eq!(chunks.len(), 28, "m2: chunk walk of the MD21 seed");
+    assert_eq!(chunks.len(), 30, "m2: chunk walk of the MD21 seed");
     assert_eq!(chunks.last().map(|c| c.0 + c.1), Some(end));
     for (p, rel, w, role, nm, base, unit) in inner {
         let o = p + rel;
@@ -1166,13 +1376,15 @@ fn build_chunked(name: &str) -> Seed {
 
 pub fn build(name: &str) -> Seed {
     match name {
-        "wotlk-264" => build_legacy(name, 264, false),
-        "wotlk-264-min" => build_legacy(name, 264, true),
-        "classic-256" => build_legacy(name, 256, false),
-        "tbc-260" => build_legacy(name, 260, false),
-        "tbc-263" => build_legacy(name, 263, false),
-        "cata-272" => build_legacy(name, 272, false),
-        "md20-legion-276" => build_legacy(name, 276, false),
+        "wotlk-264" => build_legacy(name, 264, Variant::Full),
+        "wotlk-264-min" => build_legacy(name, 264, Variant::Minimal),
+        "classic-256" => build_legacy(name, 256, Variant::Full),
+        "tbc-260" => build_legacy(name, 260, Variant::Full),
+        "tbc-263" => build_legacy(name, 263, Variant::Full),
+        "cata-272" => build_legacy(name, 272, Variant::Full),
+        "md20-legion-276" => build_legacy(name, 276, Variant::Full),
+        "md20-bfa-280" => build_legacy(name, 280, Variant::Full),
+        "md20-legion-276-hdropt" => build_legacy(name, 276, Variant::HdrOpt),
         "md21-legion" => build_chunked(name),
         _ => wverif_common::tool_error(&format!("m2: unknown seed {name}")),
     }
